@@ -75,8 +75,10 @@ class HEX(BinFormat):
         for l in self.L:
             if l.HEXcode == ExtendedSegmentAddress:
                 seg = l.base
+                ela = 0
             elif l.HEXcode == ExtendedLinearAddress:
                 ela = l.ela
+                seg = 0
             elif l.HEXcode == Data:
                 if ela:
                     address = (ela << 16) + l.address
